@@ -474,7 +474,7 @@ def build_fn(prog: dict):
         vals = []
         for l in leaves:
             if l["op"] == "const_arr":
-                vals.append(jnp.ones((2,), jnp.float32) * 3)
+                vals.append(jnp.full((2,), 3.0))
             elif l["op"] == "const_scalar":
                 vals.append(1.5)
             elif l["op"] == "const_int":
@@ -828,10 +828,24 @@ def corr_programs(chk: Check, rng: common.Rng, n: int) -> dict:
         elif vdev is not None:
             stats.setdefault("ort_failed", 0)
             stats["ort_failed"] += 1
+        out_req = set(cfg.get("output_names") or [])
+        real_in_names = [v.name for v in model.graph.input]
+        real_out_names = [v.name for v in model.graph.output]
         for d in dev:
             stats["deviations"] += 1
             if d["kind"] == "input_count" and d["dropped_are_nchw_flagged"] and d["dropped_are_unused"] and d["dropped"]:
                 key = {"kind": "unused_nchw_input_dropped"}
+            elif d["kind"] == "input_name" and d["got"] in out_req and d["got"] in real_out_names \
+                    and not cfg.get("input_names"):
+                # an output that IS the input was given a custom name: the input carries it too
+                key = {"kind": "aliased_output_renames_input"}
+            elif d["kind"] == "name_collision" and not cfg.get("input_names") and \
+                    all(nm in out_req for nm in set(real_in_names) & set(real_out_names)) and \
+                    len(set(real_in_names)) == len(real_in_names) and len(set(real_out_names)) == len(real_out_names):
+                key = {"kind": "aliased_output_renames_input"}
+            elif d["kind"] in ("output_rank", "output_value") and d.get("index") in set(cfg.get("outputs_as_nchw", [])) \
+                    and exp_out[d["index"]]["dtype"].kind == "c":
+                key = {"kind": "complex_output_as_nchw"}
             else:
                 key = {"kind": d["kind"], "detail": json.dumps({k: v for k, v in d.items() if k != "kind"}, default=str)[:200]}
             if not chk.finding(key, f"interface deviates from the callable's signature: {d}",
@@ -851,6 +865,10 @@ def corr_programs(chk: Check, rng: common.Rng, n: int) -> dict:
             real = [[g["name"], g["elem"], [str(d) for d in g["dims"]]] for g in real_in]
             if cfg.get("input_names") and len(pred) == len(cfg["input_names"]):
                 pred = [[nm, p[1], p[2]] for nm, p in zip(cfg["input_names"], pred)]
+            elif cfg.get("output_names") and len(pred) == len(real):
+                # an output that IS an input carries the requested output name on the input as well
+                # (reported separately as `aliased_output_renames_input`)
+                pred = [[r[0], p[1], p[2]] if r[0] in cfg["output_names"] else p for p, r in zip(pred, real)]
             if pred != real:
                 disagreements.append({"program": case, "model": pred, "real": real})
     chk.add("traces_validated_against_impl", len(lines))
